@@ -70,3 +70,18 @@ impl PartialOrd for Bytes { #[verifier::external_body] fn partial_cmp(&self, o: 
 pub open spec fn spec_req_key(data: Seq<u8>) -> Option<PoolKey> {
     match spec_pk_from_bytes(data) { Some(k) => if pk_canonical(k) { Some(k) } else { None }, None => None }
 }
+// ---- Vec<PoolKey>::sort / dedup (rule SUB: `v.sort()` -> `pk_sort(&mut v)`, `v.dedup()` -> `pk_dedup(&mut v)`; slice methods of std cannot carry specs here)
+/// the derived `Ord` of PoolKey (lexicographic on (left, right) in Denom's derived order): only its being a total order matters
+pub uninterp spec fn pk_le(a: PoolKey, b: PoolKey) -> bool;
+pub broadcast axiom fn axiom_pk_le_total(a: PoolKey, b: PoolKey) ensures #[trigger] pk_le(a, b) || pk_le(b, a);
+pub broadcast axiom fn axiom_pk_le_antisym(a: PoolKey, b: PoolKey) requires #[trigger] pk_le(a, b), #[trigger] pk_le(b, a) ensures a == b;
+pub broadcast axiom fn axiom_pk_le_trans(a: PoolKey, b: PoolKey, c: PoolKey) requires #[trigger] pk_le(a, b), #[trigger] pk_le(b, c) ensures pk_le(a, c);
+pub open spec fn pk_sorted(s: Seq<PoolKey>) -> bool { forall|i: int, j: int| 0 <= i <= j < s.len() ==> pk_le(#[trigger] s[i], #[trigger] s[j]) }
+/// Vec::dedup: drops every element equal to its predecessor
+pub open spec fn dedup_seq(s: Seq<PoolKey>) -> Seq<PoolKey> decreases s.len() {
+    if s.len() <= 1 { s } else if s[s.len() - 1] == s[s.len() - 2] { dedup_seq(s.drop_last()) } else { dedup_seq(s.drop_last()).push(s[s.len() - 1]) }
+}
+#[verifier::external_body]
+pub fn pk_sort(v: &mut Vec<PoolKey>) ensures pk_sorted(final(v)@), final(v)@.to_multiset() == old(v)@.to_multiset() { unimplemented!() }
+#[verifier::external_body]
+pub fn pk_dedup(v: &mut Vec<PoolKey>) ensures final(v)@ == dedup_seq(old(v)@) { unimplemented!() }
